@@ -20,9 +20,9 @@ def gen_pool(rng):
     n_ok = rng.randint(2, 5)
     i = 1
     for _ in range(n_ok):
-        pool.append(dict(id=i, kind="frame", cls=0)); i += 1
+        pool.append(dict(id=i, kind="frame", cls=0, desc=rng.random() < 0.3)); i += 1        # same band, either orientation flag
     for _ in range(rng.randint(0, 2)):
-        pool.append(dict(id=i, kind="frame", cls=rng.randint(1, 4))); i += 1
+        pool.append(dict(id=i, kind="frame", cls=rng.choice([1, 2, 3, 4, 6]))); i += 1     # 6: other orientation with the reference's fch1
     for _ in range(rng.randint(0, 2)):
         pool.append(dict(id=i, kind="other")); i += 1
     return pool
@@ -409,7 +409,7 @@ def shrink(case, key):
 
 def run(ctx):
     rng = ctx.rng
-    ctx.rule = ("random operation sequences over a pool of compatible frames, incompatible frames and non-frames on Cadence and "
+    ctx.rule = ("random operation sequences over a pool of compatible frames (either orientation flag), incompatible frames (df, dt, fchans, fmin, or the other orientation with the same fch1) and non-frames on Cadence and "
                 "OrderedCadence (indices around and beyond both ends, order strings shorter and longer than the cadence, pre-labelled "
                 "frames); thorough adds every sequence of <=3 operations over a 16-letter alphabet; a case is non-trivial when at least one "
                 "operation succeeded on a non-empty cadence; distinct = distinct (pool, order, op list)")
